@@ -228,13 +228,21 @@ class C23(Standard):
     def generate(self, ctx):
         rng = ctx.rng
         cases = []
-        per = 24 if not ctx.thorough else 500
+        per = 24 if not ctx.thorough else 2500
         for cfg in SINGLES + SETS:
             cases += boundary_cases(cfg)
             for k in range(per):
                 style = "valid" if k % 10 < 7 else ("boundary" if k % 10 < 9 else "wild")
                 cases.append(Case(style, [cfg], gen_history(rng, cfg, rng.choice([6, 15, 40]), style)))
-        return limit_faults(cases, 30 if not ctx.thorough else 300)
+        if ctx.thorough:
+            # every sequence of length <= 4 over a small alphabet (not a proof; strengthens the tie)
+            alphabet = ["plan 4 000000 7500 0 0", "plan 4 010010 7500 0 0", "plan 4 000000 7500 1 7", "tmo 7500",
+                        "resched 1 0 7500", "resched 1 18750 7500", "move -1 7500"]
+            for cfg in ["c:01234", "c:-", "c:04", "s:04/24/5/01234"]:
+                for n in range(1, 5):
+                    for seq in itertools.product(alphabet, repeat=n):
+                        cases.append(Case("enum", [cfg], list(seq)))
+        return limit_faults(cases, 30 if not ctx.thorough else 600)
 
     def search_extra(self, ctx):
         rng = ctx.rng
